@@ -209,7 +209,7 @@ def one_run(eng, cfg, strict, tag=''):
                 for s in sims:
                     ents[s] = w.start('S', sim_id=s, typ=types[s]).M()
             from vk import topo as T
-            for a, b in zip(sims, sims[1:]):     # a chain A -> B -> C
+            for a, b in zip(sims, sims[1:]) if not cfg.get('unconnected') else ():     # a chain A -> B -> C
                 o, i = T.default_kinds(types[a], types[b])
                 w.connect(ents[a], ents[b], (T.out_attr(types[a], o), T.in_attr(types[b], i)))
             if typ == 'event-based':
@@ -256,8 +256,9 @@ def pacing(cfg):
     """(a) pacing bound, (b) completion, (c) never 'too slow' with zero latency and exact timers, (d) rt_strict"""
     def h(eng):
         f = frac(cfg['f']) * frac(cfg.get('res', '1'))
-        fp = [cfg['f'], cfg.get('res', '1'), cfg.get('grouped', False), cfg.get('n', 1)]
+        fp = [cfg['f'], cfg.get('res', '1'), cfg.get('grouped', False), cfg.get('n', 1)] + (['unconnected'] if cfg.get('unconnected') else [])
         desc = f"rt_factor={cfg['f']} time_resolution={cfg.get('res', '1')} grouped={cfg.get('grouped', False)} n={cfg.get('n', 1)} " \
+               f"{'unconnected simulators ' + str(cfg.get('typ_b', '')) + ' ' if cfg.get('unconnected') else ''}" \
                f"late={cfg.get('late', False)} latency={cfg.get('latency', False)} sync={cfg.get('sync')}"
         r = one_run(eng, cfg, strict=False)
         exact = not cfg.get('late') and not cfg.get('latency')
@@ -271,7 +272,7 @@ def pacing(cfg):
         slow = [m for m in r['warns'] if 'too slow' in m]
         if exact:
             rep_sims = sorted(set(r['loop'].reported))
-            dependent = set(['B', 'C'][:cfg.get('n', 1) - 1])
+            dependent = set(['B', 'C'][:cfg.get('n', 1) - 1]) if not cfg.get('unconnected') else set()
             eng.check(not slow, 'C17.tooslow', f'simulators answer instantly and timers are exact, but {len(slow)} too-slow report(s) for {rep_sims}: {slow[:1]}: {desc}',
                       {'fp': fp + [rep_sims], 'reported': rep_sims, 'only_dependent': bool(rep_sims) and set(rep_sims) <= dependent})
         # (d) the same run with rt_strict=True: RuntimeError iff a report was logged, and nothing else changes
@@ -361,6 +362,16 @@ def jobs(tier):
                             out.append(('pacing', dict(base, latency=True, sync=[])))
                         if n == 2:
                             out.append(('pacing', dict(base, sync=[], check_strict=False)))   # asynchronous, zero latency: all orders
+    # simulators that are not connected at all (each runner task may complete whole steps before the others have started)
+    for typ_b in ('time-based', 'event-based'):
+        for sync in (['A', 'B'], [], ['A'], ['B']):
+            for grouped in (False,) if q else (False, True):
+                cfgu = {'f': '1', 'res': '1', 'grouped': grouped, 'n': 2, 'until': 3, 'K': 4, 'typ_b': typ_b, 'unconnected': True, 'sync': sync,
+                        'check_strict': sync == ['A', 'B']}
+                out.append(('pacing', dict(cfgu)))
+                if not q:
+                    out.append(('pacing', dict(cfgu, n=3, typ_c='hybrid', sync=sync + ['C'])))
+                    out.append(('pacing', dict(cfgu, late=True)))
     for typ in ('event-based', 'hybrid') + (() if q else ('time-based',)):
         for grouped in (False, True):
             cfgb = {'f': '1', 'res': '1', 'grouped': grouped, 'n': 1, 'until': 4, 'K': 6, 'typ': typ, 'events': 1, 'self_steps': typ != 'event-based',
